@@ -777,4 +777,44 @@ fn u17_iter_values_visits_every_table() {
 	assert!(unsafe { ITV_CB } == 3, "U17.iter_values.callback_receives_every_live_value_with_its_count");
 }
 
+
+// ================================================================== U19 (hash columns): maintenance passes reach every value table
+pub(crate) static mut HRM_N: usize = 0;
+pub(crate) static mut HCP_N: usize = 0;
+pub(crate) fn stub_h_refresh_metadata(_t: &ValueTable) -> Result<()> {
+	unsafe {
+		HRM_N += 1;
+	}
+	Ok(())
+}
+pub(crate) fn stub_h_complete_plan(_t: &ValueTable, _log: &mut LogWriter) -> Result<()> {
+	unsafe {
+		HCP_N += 1;
+	}
+	Ok(())
+}
+#[kani::proof]
+#[kani::unwind(6)]
+#[kani::stub(crate::table::ValueTable::refresh_metadata, stub_h_refresh_metadata)]
+#[kani::stub(crate::table::ValueTable::complete_plan, stub_h_complete_plan)]
+#[kani::stub(std::hash::RandomState::new, crate::verif_stubs::random_state_new)]
+#[kani::stub(parking_lot::RawRwLock::lock_shared_slow, crate::verif_stubs::lock_shared_slow)]
+#[kani::stub(parking_lot::RawRwLock::unlock_shared_slow, crate::verif_stubs::unlock_shared_slow)]
+#[kani::stub(parking_lot::RawRwLock::lock_exclusive_slow, crate::verif_stubs::lock_exclusive_slow)]
+#[kani::stub(parking_lot::RawRwLock::unlock_exclusive_slow, crate::verif_stubs::unlock_exclusive_slow)]
+#[kani::stub(std::fmt::format, crate::verif_stubs::fmt_format)]
+fn u19_hash_column_maintenance_reaches_every_table() {
+	let col = std::mem::ManuallyDrop::new(Column::Hash(mk_hash_column_with_table(16, false)));
+	unsafe {
+		HRM_N = 0;
+		HCP_N = 0;
+	}
+	assert!(ok(col.refresh_metadata()).is_some(), "U19.hash.refresh_metadata.no_error");
+	assert!(unsafe { HRM_N } == 1, "U19.hash.refresh_metadata_reaches_every_value_table");
+	let overlays: &'static RwLock<crate::log::LogOverlays> = Box::leak(Box::new(RwLock::new(crate::log::LogOverlays::with_columns(0))));
+	let w: &'static mut LogWriter<'static> = Box::leak(Box::new(LogWriter::new(overlays, 7)));
+	assert!(ok(col.complete_plan(&mut *w)).is_some(), "U19.hash.complete_plan.no_error");
+	assert!(unsafe { HCP_N } == 1, "U19.hash.complete_plan_reaches_every_value_table");
+}
+
 /*@@GENERATED:column@@*/
